@@ -175,3 +175,16 @@ Fixpoint f_list_biteq (a b : list float) : bool :=
   | x :: r, y :: s => andb (f_biteq x y) (f_list_biteq r s)
   | _, _ => false
   end.
+
+(* exact rational value of a finite double *)
+Definition f_to_Q (x : float) : Q :=
+  match Prim2SF x with
+  | S754_finite s m e =>
+    let q := match e with
+             | Z0 => inject_Z (Zpos m)
+             | Zpos pe => inject_Z (Zpos m * 2 ^ Zpos pe)
+             | Zneg pe => Qmake (Zpos m) (2 ^ pe)%positive
+             end in
+    if s then Qopp q else q
+  | _ => 0%Q
+  end.
